@@ -323,6 +323,36 @@ def sample(cases, per_stratum, rnd):
     return chosen
 
 
+OUTS = ["text", "json", "json-file", "sarif", "sarif-file"]
+
+
+def cross_cells(cases, rnd, seed, all_formats):
+    """(strengthened after seeded review) One case for EVERY cell of the spec's cross product
+    {--severity} x {--warnings-as-errors} x {highest severity present in the workspace} (`top`, computed by
+    CheckerCases.tla); the output format rotates so that every pair (format, flt), (format, wae), (format, top)
+    occurs; every cell in which the filter decides the exit status (`decides`) runs in every format.
+    Returns (chosen cases, set of cells that exist)."""
+    by = {}
+    for c in cases:
+        by.setdefault((c["flt"], c["wae"], c["top"], c["out"]), []).append(c)
+    cells = sorted({k[:3] for k in by})
+    chosen = []
+    for (flt, wae, top) in cells:
+        decides = any(c["decides"] for o in OUTS for c in by.get((flt, wae, top, o), []))
+        if all_formats or decides:
+            outs = OUTS
+        else:
+            outs = [OUTS[(flt + top + 3 * int(wae) + seed) % len(OUTS)]]
+        for o in outs:
+            pool = by.get((flt, wae, top, o), [])
+            if not pool:
+                raise vlib.ToolError("cross cell %s lacks format %s" % ((flt, wae, top), o))
+            # prefer a workspace in which the filter really removes something
+            pref = [c for c in pool if any(len(c["kept"][f]) != len(c["diags"][f]) for f in ("a", "b", "c"))] or pool
+            chosen.append(pref[rnd.randrange(len(pref))])
+    return chosen, set(cells)
+
+
 def run(ctx):
     # ---- 1. the operational model, all interleavings ------------------------------------------------
     for cfg, to in ((ctx.pick("Checker_q", "Checker_t"), ctx.pick(300, 1500)), ("Checker_live", 300)):
@@ -345,8 +375,19 @@ def run(ctx):
         raise vlib.ToolError("case extraction lost cases: %d printed, %d distinct" % (len(cases), res.distinct))
     cases.sort(key=lambda c: json.dumps(c, sort_keys=True))
     rnd = random.Random(ctx.seed)
-    chosen = sample(cases, ctx.pick(5, 24), rnd)
+    chosen = sample(cases, ctx.pick(4, 24), rnd)
+    cross, cells = cross_cells(cases, rnd, ctx.seed, all_formats=not ctx.quick)
+    want = {(f, w, t) for f in range(5) for w in (False, True) for t in range(1, 6)}
+    if cells != want:
+        raise vlib.ToolError("CheckerCases does not realise every cell of flt x wae x top: missing %s" % sorted(want - cells))
+    if not any(c["decides"] and c["flt"] == 1 and c["wae"] and c["top"] == 2 for c in cross):
+        raise vlib.ToolError("the cell (--severity error, --warnings-as-errors, warnings only) is not in the replayed set")
+    have = {json.dumps(c, sort_keys=True) for c in chosen}
+    chosen += [c for c in cross if json.dumps(c, sort_keys=True) not in have]
     ctx.note("cases_enumerated", len(cases))
+    ctx.note("cross_cells_replayed", len(cells))
+    ctx.note("cross_cases", len(cross))
+    ctx.note("filter_decides_cases_replayed", sum(1 for c in chosen if c["decides"]))
     # ---- 3. calibration + 4. black-box replay ---------------------------------------------------------
     vlib.build(["vh-analysis"])
     calibrate(ctx, chosen)
@@ -371,6 +412,9 @@ def run(ctx):
             ctx.validated(1)
         for kind, info in bad:
             fmt = c["out"]
+            if kind.startswith("exit/") and c["decides"]:
+                # the exit status was decided from the unfiltered diagnostics (cell where only the filter decides)
+                kind += ",top=%d/decided-before-filter" % c["top"] if obs.get("rc") == c["exit_unfiltered"] else ",top=%d" % c["top"]
             sig = "C36/%s/%s" % (fmt if not kind.startswith("exit/") else "any", kind)
             seen.setdefault(sig, []).append({
                 "case": {k: c[k] for k in ("ws", "ovr", "enable", "flt", "wae", "out")},
@@ -385,7 +429,8 @@ def run(ctx):
     ctx.rule("cases = (workspace contents x per-code severity overrides x diagnostics.enable x --severity x "
              "--warnings-as-errors x format/destination) enumerated exhaustively by TLC with the CheckerRef expectation; "
              "a seeded sample stratified over (format, filter, wae) x (enable, exit, filtered?, has warning, has error) is run "
-             "through the real binary; non-trivial = diagnostics enabled and (the filter removes a diagnostic or the "
+             "through the real binary, plus one case for every cell of --severity x --warnings-as-errors x highest severity "
+             "present (format rotating; all formats where the filter decides the exit status, and in thorough); non-trivial = diagnostics enabled and (the filter removes a diagnostic or the "
              "expected exit status is 1)")
     ctx.assume("tokio mpsc/spawn semantics as transcribed in spec/Checker.tla (bounded FIFO, recv() = None when all "
                "senders are dropped, a panicking task drops its sender)")
